@@ -47,6 +47,10 @@ def gen_cases(rng, n, prop):
         if prop == 'C14':
             if i % 2 == 0:
                 t = mutate_text(rng, t)
+            if i % 25 == 7:
+                # a NUL byte (the lexer's old end-of-input sentinel), alone or after a backslash, inside a quoted string
+                quote_ = rng.choice(['"', "'"])
+                t = 'name == %sab%scd%s%s' % (quote_, rng.choice(['\x00', '\\\x00', '\x00\x00', '\\\x00\\']), rng.choice([quote_, '']), rng.choice(['', ' AND age > 1']))
             docs.append(bad_docs(rng))
             docs.append(docs[0])                      # same document twice: the answer must be the same
             if i % 40 == 0:
@@ -61,7 +65,8 @@ def gen_cases(rng, n, prop):
                 t = a + ' and ' + gen_cond(rng)           # lower-case connective
             elif k == 2:
                 t = a + ' ' + rng.choice(["17", "'lit'", 'zzz', 'true', 'null', '= 1', '!', ':p', "'oops", '"', "'", "' OR zzz == 3", '"tail', "'a' '", '\\', '#', ';', '}', '17 "',
-                                               '\x00', '\x00 zzz', '\x00 OR zzz == 3', '\x00)', '\x00\x00 AND'])      # a NUL byte does not end the text
+                                               '\x00', '\x00 zzz', '\x00 OR zzz == 3', '\x00)', '\x00\x00 AND',      # a NUL byte does not end the text
+                                               '-', '- zzz', '-)', '+', '*', '- - 1'])
             elif k == 3:
                 b = gen_expr(rng)
                 x = rng.choice(['opt', 'zzz', 'name'])
@@ -72,6 +77,11 @@ def gen_cases(rng, n, prop):
                 continue
             elif k == 4:
                 t = a + ' ' + rng.choice([')', ']', ',', '( b == 1 )'])
+            elif k == 5 and i % 12 == 5:
+                # a stray operator character in the middle or in front of the expression
+                parts = a.split(' ')
+                j = rng.randrange(len(parts) + 1)
+                t = ' '.join(parts[:j] + [rng.choice(['-', '#', ';', '+', '- -'])] + parts[j:])
         else:
             if i % 6 == 5:
                 t = mutate_text(rng, t)
@@ -126,6 +136,11 @@ def filter_property(prop, tier, seed, replay=None):
         nonlocal corr, nviol
         g, rc, err = run_go(cases)
         m = model_two_pass(cases)
+        if err.startswith('HANG '):
+            if chk.violation({'engine': 'filter', 'what': 'building or applying the filter did not finish within 10 s (bounded time): %r' % err[5:200], 'filter': err[5:],
+                              'filter_hex': err[5:].encode('utf-8', 'replace').hex(), 'signature': 'filter:hang'}):
+                nviol += 1
+            return
         if rc != 0 or len(g) != len(cases):
             if chk.violation({'engine': 'filter', 'what': 'harness died (exit %s): %s' % (rc, err[-500:]), 'signature': 'filter:died'}):
                 nviol += 1
